@@ -412,6 +412,37 @@ fn names_that_come_back(acc: &mut Acc) {
     one(acc, "reused_name_made_optional", ReusedThenOptional { a: 1, x: Some(2) });
     one(acc, "reused_name_after_transient_made_optional", TransientThenOptional { a: 1, x: Some(2) });
     one(acc, "reused_positional_name_made_optional", ReusedInVariant::A(Some("hi".into())));
+    // a name made optional in both of its incarnations: [MadeOptional x, Removed x, Added x, MadeOptional x].  Data written
+    // between the re-adding and the second made-optional step holds a plain value; the final definition wraps it.
+    #[derive(BinaryCodec, Debug, PartialEq, Clone)]
+    #[evolution(FieldMadeOptional("x"), FieldRemoved("x"), FieldAdded("x", 5u8))]
+    struct TwiceOptionalW {
+        a: u8,
+        x: u8,
+    }
+    #[derive(BinaryCodec, Debug, PartialEq, Clone)]
+    #[evolution(FieldMadeOptional("x"), FieldRemoved("x"), FieldAdded("x", Some(5u8)), FieldMadeOptional("x"))]
+    struct TwiceOptionalR {
+        a: u8,
+        x: Option<u8>,
+    }
+    one(acc, "made_optional_in_both_incarnations", TwiceOptionalR { a: 1, x: Some(2) });
+    one(acc, "made_optional_in_both_incarnations_none", TwiceOptionalR { a: 1, x: None });
+    acc.case(Some(0x7201));
+    let (r, _) = sbase::monitored(None, || {
+        let bytes = desert::serialize_to_byte_vec(&TwiceOptionalW { a: 1, x: 2 }).map_err(|e| sbase::classify(&e))?;
+        let newer: TwiceOptionalR = desert::deserialize(&bytes).map_err(|e| sbase::classify(&e))?;
+        let bytes2 = desert::serialize_to_byte_vec(&TwiceOptionalR { a: 3, x: Some(4) }).map_err(|e| sbase::classify(&e))?;
+        let older: TwiceOptionalW = desert::deserialize(&bytes2).map_err(|e| sbase::classify(&e))?;
+        Ok((newer, older))
+    });
+    match r {
+        Call::Ok((newer, older)) if newer == (TwiceOptionalR { a: 1, x: Some(2) }) && older == (TwiceOptionalW { a: 3, x: 4 }) => acc.count("names:made_optional_in_both_incarnations:across_the_last_step"),
+        other => acc.violation(
+            format!("C02|name_comes_back|made_optional_in_both_incarnations_across_versions|{}", if other.is_ok() { "silently_different_value".to_string() } else { other.class() }),
+            J::obj().with("check", J::s("C02")).with("mode", J::s("content")).with("got", J::s(format!("{other:?}"))).with("expected", J::s("the wrapped / unwrapped value")),
+        ),
+    }
     // the header of the reused-name record must be the one of the fresh-name record, name apart
     let a = desert::serialize_to_byte_vec(&ReusedThenOptional { a: 1, x: Some(2) });
     acc.case(Some(0x4ead));
@@ -424,8 +455,53 @@ fn names_that_come_back(acc: &mut Acc) {
     }
 }
 
+/// Values of the recursive declarations far deeper than the generator nests them (hundreds of boxes / vectors /
+/// constructors inside one another): they must round-trip like any other value.
+fn deep_recursive_values(ctx: &mut Ctx, acc: &mut Acc, check: &str) {
+    if ctx.shard != 0 || ctx.only_fresh() {
+        return;
+    }
+    for depth in [129usize, 300, 2000] {
+        // DeepRec { v, next: Option<Box<DeepRec>> }
+        let mut v = Val::Rec(vec![Val::U(1), Val::None]);
+        for i in 0..depth {
+            v = Val::Rec(vec![Val::U((i % 250) as u128), Val::some(v)]);
+        }
+        // DeepVec { kids: Vec<DeepVec> }, one child per level
+        let mut dv = Val::Rec(vec![Val::Seq(vec![])]);
+        for _ in 0..depth {
+            dv = Val::Rec(vec![Val::Seq(vec![dv])]);
+        }
+        // DeepEnum::Node(Box<DeepEnum>) … Leaf(u16)
+        let mut de = Val::Ctor(0, vec![Val::U(9)]);
+        for _ in 0..depth {
+            de = Val::Ctor(1, vec![de]);
+        }
+        for (id, val) in [("DeepRec", v), ("DeepVec", dv), ("DeepEnum", de)] {
+            let Some(s) = ctx.reg.get(id) else { continue };
+            let ty = s.ty();
+            // the harness' own recursion (canonical form, rendering) runs on a large stack
+            let exp = val.clone();
+            let Some((_x, bytes)) = encode_case(acc, s, &val) else {
+                acc.case(None);
+                continue;
+            };
+            std::mem::forget(_x); // dropping a deep value is recursion of the client's drop glue, not of the library
+            acc.case(Some(sig(&[id.as_bytes(), &bytes])));
+            let a = check_decodes_to(ctx, acc, check, s, &bytes, &exp, "deeply nested value of a recursive declaration");
+            let b = check_emitted(acc, check, s, &bytes, &exp);
+            if a && b {
+                acc.count("deep_recursive_values_ok");
+                acc.max("deepest_recursive_value_round_tripped", depth as u64);
+            }
+            let _ = &ty;
+        }
+    }
+}
+
 pub fn c02(ctx: &mut Ctx, acc: &mut Acc) -> i32 {
     deep_nesting(ctx, acc, "C02");
+    deep_recursive_values(ctx, acc, "C02");
     if ctx.shard == 0 && !ctx.only_fresh() {
         names_that_come_back(acc);
     }
